@@ -401,6 +401,39 @@ class Real:
         cs = list(self.tc.circuits.values())
         return cs[idx] if 0 <= idx < len(cs) else None
 
+    def expected_receivers(self, from_tunnel, packet):
+        """who must be offered a packet of that origin: the global listeners and the loaded overlays with the packet's
+        prefix whose `anonymize` (as asked for in their settings / given to the listener) equals from_tunnel, once each"""
+        want = [l.lid for l in self.listeners if bool(getattr(l, "anonymize", False)) == from_tunnel]
+        for i, (ov, asked) in enumerate(self.overlays):
+            if ov is not None and ov.get_prefix() == packet[:22] and bool(asked) == from_tunnel:
+                want.append(1000 + i)
+        return sorted(want)
+
+    def deliver(self, from_tunnel, packet, action, sig):
+        self.log.clear()
+        exc = None
+        try:
+            action()
+        except Exception as e:  # noqa: BLE001
+            exc = type(e).__name__
+        got = sorted(e[1] for e in self.log if e[0] == "deliver")
+        want = self.expected_receivers(from_tunnel, packet)
+        if got != want:
+            missing = [x for x in want if x not in got]
+            extra = [x for x in got if x not in want or got.count(x) > want.count(x)]
+            self._bad(sig, f"packet with prefix {packet[:22].hex()} and from_tunnel={from_tunnel} was offered to {got}, "
+                           f"expected {want}"
+                           + (f"; never reached {['overlay %d' % (m - 1000) if m >= 1000 else 'listener %d' % m for m in missing]}"
+                              if missing else "") + (f"; wrongly or repeatedly reached {sorted(set(extra))}" if extra else "")
+                           + f" (global listeners {[(l.lid, getattr(l, 'anonymize', None)) for l in self.listeners]}, overlays "
+                             f"{[(1000 + i, ov.get_prefix().hex()[:8], a) for i, (ov, a) in enumerate(self.overlays) if ov is not None]})")
+        if any(e[0] in ("raw", "data") for e in self.log):
+            self._bad(sig.split(":")[0] + ":sends", "delivering a packet sent something")
+        evs = [f"deliver:{g}" for g in got] + ([f"raised:{exc}"] if exc else [])
+        self.log.clear()
+        return (" ".join(evs) if evs else "-") + f" q={len(self.ep.send_queue)}"
+
     def do(self, op):
         """op: tuple as produced by the generators; returns the canonical reply (same format as the driver)"""
         k = self.k
@@ -443,22 +476,8 @@ class Real:
             self.listeners.append(lis)
             return self.quiet("add_listener", lambda: self.ep.add_listener(lis))
         if kind == "notify":
-            self.log.clear()
-            exc = None
-            try:
-                self.ep.notify_listeners((k.dest[1], PA + b"in"), from_tunnel=op[1])
-            except Exception as e:  # noqa: BLE001
-                exc = type(e).__name__
-            got = [e[1] for e in self.log if e[0] == "deliver"]
-            want = [l.lid for l in self.listeners if bool(getattr(l, "anonymize", False)) == op[1]]
-            if sorted(got) != sorted(want):
-                self._bad("TunnelEndpoint.notify_listeners:filter",
-                          f"from_tunnel={op[1]}: delivered to listeners {got}, expected {want} "
-                          f"(anonymize flags {[(l.lid, getattr(l, 'anonymize', None)) for l in self.listeners]})")
-            if any(e[0] in ("raw", "data") for e in self.log):
-                self._bad("TunnelEndpoint.notify_listeners:sends", "notify_listeners sent something")
-            evs = [f"deliver:{g}" for g in got] + ([f"raised:{exc}"] if exc else [])
-            return (" ".join(evs) if evs else "-") + f" q={len(self.ep.send_queue)}"
+            return self.deliver(op[1], op[2], lambda: self.ep.notify_listeners((k.dest[1], op[2]), from_tunnel=op[1]),
+                                "TunnelEndpoint.notify_listeners:filter")
         if kind == "burst":
             n, a, pfx, base = op[1:]
             tot = [0, 0, 0, 0]
@@ -489,31 +508,20 @@ class Real:
                 self.anon.pop(self.tc_prefix, None)  # its own traffic is plain by construction
             return reply
         if kind == "unload":
+            if op[1] >= len(self.overlays):
+                return f"- q={len(self.ep.send_queue)}"
             ov, _ = self.overlays[op[1]]
             self.overlays[op[1]] = (None, False)
-            return self.quiet("Community.unload", lambda: k.loop.run_until_complete(ov.unload()))
+            return self.quiet("Community.unload", lambda: k.loop.run_until_complete(ov.unload())) if ov else \
+                f"- q={len(self.ep.send_queue)}"
         if kind == "tcdata":
-            # inbound DATA cell from the first hop of circuit idx carrying another overlay's packet
+            # inbound DATA cell from the first hop of circuit idx carrying another overlay's packet: the real
+            # TunnelCommunity.on_data, which ends in notify_listeners((origin, data), from_tunnel=True)
             c = self.circuit_at(op[1])
-            if c is None or not c._hops:
-                return f"- q={len(self.ep.send_queue)}"
-            inner = PA + b"inbound"
             cell = b"\x00" * 23 + self.tc.serializer.pack_serializable(
-                k.DataPayload(c.circuit_id, ("0.0.0.0", 0), k.dest[1], inner))
-            self.log.clear()
-            exc = None
-            try:
-                self.tc.on_data(c._hops[0].peer.address, cell, c.circuit_id)
-            except Exception as e:  # noqa: BLE001
-                exc = type(e).__name__
-            got = [e[1] for e in self.log if e[0] == "deliver"]
-            want = [l.lid for l in self.listeners if bool(getattr(l, "anonymize", False))]
-            if sorted(got) != sorted(want):
-                self._bad("TunnelCommunity.on_data:delivery",
-                          f"tunnel data for another overlay was delivered to listeners {got}, expected the anonymized ones "
-                          f"{want} (anonymize flags {[(l.lid, getattr(l, 'anonymize', None)) for l in self.listeners]})")
-            evs = [f"deliver:{g}" for g in got] + ([f"raised:{exc}"] if exc else [])
-            return (" ".join(evs) if evs else "-") + f" q={len(self.ep.send_queue)}"
+                k.DataPayload(c.circuit_id, ("0.0.0.0", 0), k.dest[1], op[2]))
+            return self.deliver(True, op[2], lambda: self.tc.on_data(c._hops[0].peer.address, cell, c.circuit_id),
+                                "TunnelCommunity.on_data:delivery")
         if kind == "overlay":
             # a real Community subclass constructed over the TunnelEndpoint; the oracle's notion of "asked for
             # anonymity" is the settings object handed in, never what the endpoint recorded
@@ -526,9 +534,17 @@ class Real:
                                                     anonymize=want)))
             reply = self.quiet("Community.__init__", construct)
             if made:
-                self.overlays.append((made[0], want))
+                ov, lid = made[0], 1000 + len(self.overlays)
+                self.overlays.append((ov, want))
                 if want:
-                    self.anon[made[0].get_prefix()] = True
+                    self.anon[ov.get_prefix()] = True
+                ov._c07_lid = lid
+                real_on_packet = ov.on_packet
+
+                def on_packet(packet, *a, _lid=lid, _real=real_on_packet, **kw):
+                    self.log.append(("deliver", _lid))
+                    return _real(packet, *a, **kw)
+                ov.on_packet = on_packet
             return reply
         raise ValueError(kind)
 
@@ -610,9 +626,11 @@ class Real:
             circ.append(f"{c.circuit_id}/{c.goal_hops}/{k.CT.index(c.ctype)}/{'1' if c._closing else '0'}/<{hops}>")
         lis = [f"{l.lid}:" + ("none" if not hasattr(l, "anonymize") else ("1" if l.anonymize else "0"))
                for l in self.inner._listeners if hasattr(l, "lid")]
+        plis = sorted({f"{l._c07_lid}:{hx(pfx)}:" + ("none" if not hasattr(l, "anonymize") else ("1" if l.anonymize else "0"))
+                       for pfx, lst in self.inner._prefix_map.items() for l in lst if hasattr(l, "_c07_lid")})
         return (f"cap={ep.send_queue.maxlen} hops={ep.hops} att={'1' if ep.tunnel_community is not None else '0'} "
                 f"can={'1' if tc.can_create else '0'} fail={'none' if tc.fail_after is None else tc.fail_after} set=[{','.join(sets)}] q=[{','.join(q)}] "
-                f"circ=[{','.join(circ)}] lis=[{','.join(lis)}]")
+                f"circ=[{','.join(circ)}] lis=[{','.join(lis)}] plis=[{','.join(plis)}]")
 
 
 def line_of(op) -> str:
@@ -635,7 +653,9 @@ def line_of(op) -> str:
     if kind == "listener":
         return f"listener {op[1]} {'none' if op[2] is None else int(op[2])}"
     if kind == "notify":
-        return f"notify {int(op[1])}"
+        return f"notify {int(op[1])} {hx(op[2])}"
+    if kind == "unload":
+        return f"unload {1000 + op[1]}"
     if kind == "burst":
         return f"burst {op[1]} {op[2]} {hx(op[3])} {op[4]}"
     if kind == "dump":
@@ -645,7 +665,7 @@ def line_of(op) -> str:
     if kind == "tcinit":
         return "tcinit " + hx(bytes([0, 2]) + TC_ID)
     if kind == "tcdata":
-        return "notify 1"        # TunnelCommunity.on_data ends in notify_listeners(packet, from_tunnel=True)
+        return f"notify 1 {hx(op[2])}"     # TunnelCommunity.on_data ends in notify_listeners(packet, from_tunnel=True)
     if kind == "overlay":
         return f"overlay {hx(op[1])} {int(op[2])}"
     raise ValueError(kind)
@@ -667,6 +687,10 @@ def op_from_json(j):
         return ("overlay", bytes.fromhex(j[1]), bool(j[2]))
     if kind == "hop":
         return ("hop", j[1], j[2], None if j[3] is None else list(j[3]))
+    if kind == "notify":
+        return ("notify", bool(j[1]), bytes.fromhex(j[2]))
+    if kind == "tcdata":
+        return ("tcdata", j[1], bytes.fromhex(j[2]))
     return tuple(j)
 
 
@@ -739,7 +763,7 @@ def gen_random(rng, depth, real: Real, ctr):
         elif kind == "listener":
             yield ("listener", len(real.listeners) + 1, rng.choice([True, False, None]))
         elif kind == "notify":
-            yield ("notify", rng.random() < 0.5)
+            yield ("notify", rng.random() < 0.5, rng.choice(prefixes) + b"in")
         elif kind == "fail":
             yield ("fail", rng.choice([0, 0, 1, 2, 3, 7, None]))
         elif kind == "mkready":
@@ -897,6 +921,16 @@ def alphabet(name):
                 lambda i, r: ("settc", True, 1),
                 lambda i, r: ("anon", PA, True),
                 lambda i, r: ("anon", PA, False)]
+    if name == "D":    # delivery by origin: real Community objects (registered by prefix) and global listeners
+        return [lambda i, r: ("overlay", PA[2:], True),
+                lambda i, r: ("overlay", PA[2:], False),
+                lambda i, r: ("overlay", PB[2:], True),
+                lambda i, r: ("listener", 1 + i, True),
+                lambda i, r: ("listener", 1 + i, None),
+                lambda i, r: ("notify", True, PA + bytes([i])),
+                lambda i, r: ("notify", False, PA + bytes([i])),
+                lambda i, r: ("notify", True, PB + bytes([i])),
+                lambda i, r: ("unload", 0)]
     if name == "B":    # 2-hop circuits, creation failures, re-attachment with another length
         return [lambda i, r: ("send", 1, PA + bytes([i])),
                 lambda i, r: ("anon", PA, True),
@@ -1063,14 +1097,13 @@ def overlay_tier(ctx: Ctx, n_scen: int, use_model: bool):
                     # one overlay goes away; the others (possibly sharing its prefix) keep sending
                     i = rng.choice(live)
                     ctx.count("overlay:unload of %s overlay while others stay" % ("anonymized" if real.overlays[i][1] else "plain"))
-                    real.do(("unload", i))
-                    record.append(("unload", i))
-                    lines.append("dump")
-                    expect.append(real.dump())
+                    run_history(ctx, real, [("unload", i), ("dump",)], lines, expect, record)
                 elif r < 0.97 and real.real_tc and real.listeners:
                     cs = [i for i, c in enumerate(real.tc.circuits.values()) if c._hops]
                     if cs:
-                        run_history(ctx, real, [("tcdata", rng.choice(cs))], lines, expect, record)
+                        ov = real.overlays[rng.choice(live)][0]
+                        run_history(ctx, real, [("tcdata", rng.choice(cs), ov.get_prefix() + b"inbound")], lines, expect,
+                                    record)
                 else:
                     run_history(ctx, real, [("dump",)], lines, expect, record)
             lines.append("dump")
@@ -1380,6 +1413,7 @@ def run(ctx: Ctx):
     exhaustive_tier(ctx, "A", 10, ctx.scale(5, 6), ctx.model_ok)
     exhaustive_tier(ctx, "B", 12, ctx.scale(4, 5), ctx.model_ok)
     exhaustive_tier(ctx, "C", 8, ctx.scale(4, 5), ctx.model_ok)    # real overlays, shared prefixes
+    exhaustive_tier(ctx, "D", 9, ctx.scale(3, 4), ctx.model_ok)    # delivery by origin to real overlays
     random_tier(ctx, ctx.scale(1200, 15000), ctx.model_ok)
     overlay_tier(ctx, ctx.scale(150, 2000), ctx.model_ok)
     lifecycle_tier(ctx, ctx.scale(250, 4000), ctx.model_ok)
@@ -1389,6 +1423,8 @@ def search(ctx: Ctx, reason: str):
     exhaustive_tier(ctx, "A", 10, 5, False)
     if not ctx.failures:
         exhaustive_tier(ctx, "C", 8, 4, False)
+    if not ctx.failures:
+        exhaustive_tier(ctx, "D", 9, 3, False)
     if not ctx.failures:
         exhaustive_tier(ctx, "B", 12, 4, False)
     if not ctx.failures:
